@@ -72,6 +72,8 @@ class CppEmitter:
             return "void"
         if k == "str":
             return "std::u16string_view" if t[1] == "u16" else "std::string_view"
+        if k == "oref" and not t[4]:
+            return ("%s&" if t[2] else "const %s&") % t[1]
         raise ValueError(t)
 
     # ---- arguments
